@@ -33,6 +33,7 @@ from .CellConversionError import CellConversionError
 from ..Surface.ConversionSurfaceMCNPToT4 import convert_mcnp_surface
 from .ByUniverse import by_universe
 from .CellInlining import inline_cells
+from ..VerifTrace import emit as verif_emit
 
 
 def construct_volume_t4(mcnp_parser, lattice_params, cell_cache_path,
@@ -43,6 +44,7 @@ def construct_volume_t4(mcnp_parser, lattice_params, cell_cache_path,
     dic_vol_t4 = DictVolumeT4()
     mcnp_dict, skipped_cells = ParseMCNPCell(mcnp_parser, cell_cache_path,
                                              lattice_params).parse()
+    verif_emit('parsed', cells=mcnp_dict, skipped=skipped_cells)
 
     tr_surf_ids = extract_tr_surf_ids(mcnp_dict) - set(dic_surface_mcnp)
     if tr_surf_ids:
@@ -79,6 +81,8 @@ def construct_volume_t4(mcnp_parser, lattice_params, cell_cache_path,
                 cell.geometry = conv.apply_trcl(cell.trcl, cell.geometry)
                 mcnp_dict[key] = cell
 
+    verif_emit('trcl', cells=mcnp_dict, surf_t4=dic_surface_t4)
+
     # treat complements
     with Progress('converting complement for cell',
                   len(mcnp_dict), max(mcnp_dict)) as progress:
@@ -86,6 +90,8 @@ def construct_volume_t4(mcnp_parser, lattice_params, cell_cache_path,
             progress.update(i, key)
             new_geom = conv.pot_complement(mcnp_dict[key].geometry)
             mcnp_dict[key].geometry = new_geom
+
+    verif_emit('complement', cells=mcnp_dict, surf_t4=dic_surface_t4)
 
     # treat LAT
     lat_cells = [key for key, value in mcnp_dict.items() if value.lattice]
@@ -95,6 +101,8 @@ def construct_volume_t4(mcnp_parser, lattice_params, cell_cache_path,
             for i, key in enumerate(lat_cells):
                 progress.update(i, key)
                 conv.develop_lattice(key)
+
+    verif_emit('lattice', cells=mcnp_dict, surf_t4=dic_surface_t4)
 
     # treat FILL
     dict_universe = by_universe(mcnp_dict)
@@ -112,8 +120,11 @@ def construct_volume_t4(mcnp_parser, lattice_params, cell_cache_path,
                     raise SurfaceConversionError(f'{err} (while converting '
                                                  f'cell {key})') from None
 
+    verif_emit('fill', cells=mcnp_dict, surf_t4=dic_surface_t4)
+
     # consider inlining cells
     inline_cells(mcnp_dict, max_inline_score)
+    verif_emit('inline', cells=mcnp_dict, surf_t4=dic_surface_t4)
 
     conv_keys = [(key, value) for key, value in mcnp_dict.items()
                  if value.importance != 0 and value.universe == 0
@@ -129,6 +140,8 @@ def construct_volume_t4(mcnp_parser, lattice_params, cell_cache_path,
     t4_surf_numbering[union_ids[1]] = SurfaceT4(T4S.PLANEX,
                                                 [-1],
                                                 ['aux plane for unions'])
+    verif_emit('numbered', numbering=t4_surf_numbering, matching=matching,
+               union_ids=union_ids)
 
     with Progress('converting cell', len(conv_keys),
                   max((key for key, _ in conv_keys), default=0)) as progress:
@@ -145,6 +158,8 @@ def construct_volume_t4(mcnp_parser, lattice_params, cell_cache_path,
             dic_vol_t4[key] = dic_vol_t4[j].copy()
             dic_vol_t4[key].fictive = False
 
+    verif_emit('converted', volumes=dic_vol_t4, numbering=t4_surf_numbering,
+               cells=mcnp_dict)
     return dic_vol_t4, mcnp_dict, t4_surf_numbering, skipped_cells, union_ids
 
 
